@@ -115,6 +115,8 @@ class J1939_21:
             # if the PF is between 240 and 255, the message can only be broadcast
             if dest_address == ParameterGroupNumber.Address.GLOBAL:
                 # send BAM
+                if pgn.is_pdu1_format:
+                    pgn.pdu_specific = 0  # pdu1: the (global) destination address is not part of the pgn
                 self.__send_tp_bam(src_address, priority, pgn.value, message_size, num_packets)
 
                 # init new buffer for this connection
